@@ -2,7 +2,7 @@
 import io, struct
 from .. import core, gallina as G, codec_common as CC, gen
 
-SRCFACTS = []
+SRCFACTS = ["leaves_enc"]
 RULE = ("corr:write = bytes of schemaless_writer vs the model's specification encoder on generated (schema, datum) cases (as C01); "
         "corr:wire-leaf = BinaryEncoder methods one by one on exhaustive boundary families (all varint-length boundaries, int extremes, "
         "float specials and rounding boundaries, all 256 byte values, string lengths 0/1/63/64/8191/8192 with 1-4 byte code points); "
